@@ -208,7 +208,11 @@ class _InvLoop:
         W0 = IW(L, inst, z3.IntVal(0), c.entry.time)
         Wi = IW(L, inst, c.i, st.time)
         K = sp.K(self.which, W0)
-        return [st.todo == (z3.Concat(Wi.ev, K) if K is not None else Wi.ev), Wi.eqs(W0)]
+        out = [st.todo == (z3.Concat(Wi.ev, K) if K is not None else Wi.ev), Wi.eqs(W0)]
+        if getattr(sp, "holds_marker", True):
+            # C10: the object's marker is held while its invariants are evaluated (their re-entrant calls go unchecked)
+            out.append(sp.marker(st))
+        return out
 
 
 def _raise_matches_x(c, e, R):
@@ -256,6 +260,8 @@ class _InvWrapperBase(FnSpec):
         a, kw = kwargs.get("*"), kwargs.get("**")
         same = z3.BoolVal(False) if (args or a is None or kw is None) else z3.And(a.t == self.a["args"].t, kw.t == self.a["kwargs"].t)
         ex.oblige(st, "oracle.Body#%d.receives_the_identical_args_and_kwargs" % k, same, kind="C14", meta={"props": ["C14", "C03"]})
+        if getattr(self, "holds_marker", True):
+            ex.oblige(st, "oracle.Body#%d.marker_held_while_the_constructor_or_method_runs" % k, self.marker(st), kind="C10", meta={"props": ["C10", "C03"]})
         return REG.oracle(ex, st, "Body", self.a["args"].t, self.a["kwargs"].t)
 
     def mutation(self, what):
@@ -357,6 +363,7 @@ class InitInvWrapper(_InvWrapperBase):
 
 class NewInvWrapper(_InvWrapperBase):
     addr = "_checkers.py::_decorate_new_with_invariants/wrapper"
+    holds_marker = False  # the instance does not exist before __new__ returns; its invariants then run without a marker (depth <= 2)
     free = {"new_func": None}
 
     def __init__(self):
